@@ -12,7 +12,7 @@ from .interp import Exc, MapLoc
 
 MODULE_NAMES = {"np", "pm", "warnings", "math", "json", "itertools", "functools", "dataclasses",
                 "pulser", "copy", "inspect", "seq_decorators"}
-BUILTIN_FUNCS = {"map", "slice", "chain", "wraps", "int", "float", "bool", "len", "abs", "max", "min", "sum", "set", "tuple", "list",
+BUILTIN_FUNCS = {"replace", "map", "slice", "chain", "wraps", "int", "float", "bool", "len", "abs", "max", "min", "sum", "set", "tuple", "list",
                  "dict", "sorted", "any", "all", "round", "isinstance", "hasattr", "getattr", "cast",
                  "range", "enumerate", "zip", "reversed", "str", "type", "repr", "print", "get_args",
                  "super", "object", "frozenset", "iter", "next", "id"}
@@ -513,6 +513,8 @@ class ExprMixin:
         return self.bind(self.eval(e.value, st), f)
 
     def getattr(self, v, attr, st, node=None):
+        if isinstance(v, OptV) and attr == "size":
+            v = self.unopt(v, st, node)
         if attr == "size" and (isinstance(v, (int, float)) or (isinstance(v, Sym) and v.ty in ("int", "real"))):
             return [(1, st)]
         if attr == "size" and isinstance(v, SeqV):
